@@ -18,13 +18,20 @@ TOK  := S pfx:hex local:hex nA (apfx:hex alocal:hex value:hex)^nA | E pfx:hex lo
       | M text:hex | P target:hex inst:hex | D text:hex
 MASK := ~ | + n (id value)^n
 ROT  := n (token fmt fmt90 zero90:01)^n        Sprintf("%03f") of each rotation token occurring in T, and of value+90
-OUT  := PR nil strEmpty:01 | PR doc strEmpty:01 kept:01 kept2:01 wellformed:01 tail:01 n NODE^n
+OUT  := PR nil strEmpty:01 args:01 again:01 | PR doc strEmpty:01 kept:01 kept2:01 keptMod:01 wellformed:01 tail:01 args:01 again:01 n NODE^n
 PR   := err | noroot | root                    what the real xmldom.ParseXML(base) returned
 NODE := name:hex nA (key:hex value:hex)^nA text:hex printed:hex          printed = node.XML()
 
 svg.esc s:hex | printed:hex     (&xmldom.Node{Name: "text", Attributes: {style: s}, Text: s}).XML(): the printer on any bytes
 ```
-`strEmpty` = `GenerateCompositeSVG(...) == ""` (the string-returning wrapper).
+svg.seq MASK k (showLabels showHWCID showType showDisplaySize base:hex kinds:hex endOk:01 FEAT TOKS ROT T)^k  |  OUT (; OUT)^(k-1)
+     k calls that share ONE availability map object and ONE Topology object (each T assigned into it in place, its ToJSON()
+     is the argument); every call is judged exactly like a svg.gen record with that mask.
+```
+`strEmpty` = `GenerateCompositeSVG(...) == ""` (the string-returning wrapper).  `args` / `again` (`Spec.Svg.CallObs`): the map
+equals a deep copy taken before the first call of the record after every call; calling again with the same objects gives the
+same document and the wrapper's string is the pretty-printed default document.  `keptMod` = `Spec.SvgBase.keepsContentMod`.
+```
 The model's flags are `Xmldom.modelObserved` (Model/SvgObs.lean): `kept2` / `wellformed` are `Spec.SvgBase.keepsContent` /
 `noDupAttrs` of the token stream the modelled xmldom round trip prints (`Xmldom.printedToks`, appended elements
 included); `kept` and `tail` are `1`.
@@ -58,17 +65,20 @@ structure Out where
   nodes : Option (List (SvgNode × Str))
   strEmpty : Bool
   ob : Spec.Svg.Observed
+  co : Spec.Svg.CallObs
 
 def pOut : P Out := do
   let pr ← tok
   let t ← tok
   if t = "nil" then do
-    let e ← pBool
-    pure { pr, nodes := none, strEmpty := e, ob := { kept := true, kept2 := true, wellformed := true, tail := true } }
+    let e ← pBool; let args ← pBool; let again ← pBool
+    pure { pr, nodes := none, strEmpty := e, ob := { kept := true, kept2 := true, keptMod := true, wellformed := true, tail := true },
+           co := { args, again } }
   else if t = "doc" then do
-    let e ← pBool; let kept ← pBool; let kept2 ← pBool; let wf ← pBool; let tail ← pBool; let n ← pNat
+    let e ← pBool; let kept ← pBool; let kept2 ← pBool; let keptMod ← pBool; let wf ← pBool; let tail ← pBool
+    let args ← pBool; let again ← pBool; let n ← pNat
     let nodes ← pMany pNode n
-    pure { pr, nodes := some nodes, strEmpty := e, ob := { kept, kept2, wellformed := wf, tail } }
+    pure { pr, nodes := some nodes, strEmpty := e, ob := { kept, kept2, keptMod, wellformed := wf, tail }, co := { args, again } }
   else failure
 
 def sNode (n : SvgNode) : List String :=
@@ -102,57 +112,106 @@ def dropS (s : String) (n : Nat) : String := String.ofList (s.toList.drop n)
 
 /-- the model's output line: `kept2` and `wellformed` from the modelled round trip of the base, `kept` and `tail` as `1` -/
 def sOut (pr : Svg.ParseResult) (ts : List Xml.Tok) (r : Option (List SvgNode)) : String :=
+  let co := Xmldom.modelCall
   match r with
-  | none => s!"{sPR pr} nil 1"
+  | none => s!"{sPR pr} nil 1 {sBool co.args} {sBool co.again}"
   | some ns =>
     let ob := Xmldom.modelObserved ns ts
-    " ".intercalate ([sPR pr, "doc", "0", sBool ob.kept, sBool ob.kept2, sBool ob.wellformed, sBool ob.tail, sNat ns.length] ++
-      ns.flatMap sNode)
+    " ".intercalate ([sPR pr, "doc", "0", sBool ob.kept, sBool ob.kept2, sBool ob.keptMod, sBool ob.wellformed, sBool ob.tail,
+      sBool co.args, sBool co.again, sNat ns.length] ++ ns.flatMap sNode)
 
 def escNode (s : Str) : SvgNode := { name := Svg.b "text", attrs := [(Svg.b "style", s)], text := s }
+
+structure Call where
+  o : SvgOpts
+  kinds : Str
+  endOk : Bool
+  feat : String
+  ts : List Xml.Tok
+  rot : List (Str × Svg.RotInfo)
+  t : Topology
+
+def pCallHead : P (SvgOpts × Str × Bool × String × List Xml.Tok) := do
+  let a ← pBool; let b ← pBool; let c ← pBool; let d ← pBool
+  let _base ← pHex; let kinds ← pHex; let endOk ← pBool; let feat ← tok; let ts ← pXToks
+  pure (({ showLabels := a, showHWCID := b, showType := c, showDisplaySize := d } : SvgOpts), kinds, endOk, feat, ts)
+
+/-- one call judged: (well-formed record, model = implementation, failing clause, model output, branch tags);
+`impl` = the tokens of this call's OUT, `none` = the library panicked -/
+def judge (c : Call) (mask : Option (List (Nat × Nat))) (impl : Option (List String)) : Bool × Bool × Option String × String × List String :=
+  if c.ts.map Xml.kindOf ≠ c.kinds || !c.feat.startsWith "F:" then (false, false, none, "", []) else
+  let featNames := ((dropS c.feat 2).splitOn ",").filter (· ≠ "-")
+  let rej : Option String := (featNames.find? (·.startsWith "rej-")).map (dropS · 4)
+  let fs := Spec.SvgBase.features c.ts
+  -- the harness's flags must be the Spec's features of the token stream (valid bases), or one rejection class
+  let featOk := if c.endOk then featNames = fs.names else (featNames = [] || (rej.isSome && featNames.length = 1))
+  let rotF : Str → Svg.RotInfo := fun tk => (c.rot.lookup tk).getD { fmt := [63], fmt90 := [63], zero90 := false }
+  let pr := Svg.parseXML c.kinds c.endOk
+  let m := Svg.compositeNodes rotF c.kinds c.endOk c.o c.t mask
+  let ms := sOut pr c.ts m
+  let baseOk := Spec.Svg.baseOk c.kinds c.endOk
+  let tags := [if baseOk then "base-ok" else if rej.isSome then "base-rejected-valid" else "base-bad", s!"pr-{sPR pr}",
+               (match mask with | none => "nomap" | some [] => "emptymap" | some _ => "map"),
+               s!"n{(c.t.hwc.filter (Spec.Svg.visible mask)).length}"] ++
+              (if baseOk then
+                [if Spec.SvgBase.XmlDoc c.ts then "doc-shape-ok" else "doc-shape-bad",
+                 if Spec.SvgBase.lossFree c.ts && !fs.dup then "feat-none" else "feat-lossy"] ++ fs.names.map ("feat-" ++ ·)
+               else [])
+  match impl with
+  | none => (true, false, some "panic", ms, tags)
+  | some implToks =>
+    let eq := ms = " ".intercalate implToks && featOk
+    match run pOut implToks with
+    | none => (true, false, some "shape", ms, tags)
+    | some io =>
+      let h := match Spec.Svg.callOk io.co with
+        | some e => some e
+        | none => Spec.Svg.checkSVG (Svg.fmtOf rotF) c.o c.t mask c.kinds c.endOk c.ts rej io.nodes io.ob
+      let h := if h.isNone && !baseOk && !rej.isSome && !io.strEmpty then some "bad-base-string-not-empty" else h
+      let h := if featOk then h else some "feature-flags"
+      (true, eq, h, ms, tags)
+
+/-- the OUTs of a `svg.seq` record: token groups separated by `;` -/
+def splitSemi (l : List String) : List (List String) :=
+  l.foldr (fun t acc => if t = ";" then [] :: acc else match acc with | g :: r => (t :: g) :: r | [] => [[t]]) [[]]
 
 def step (cmd : String) (args0 : List String) (impl : String) : String :=
   let args := args0.filter (fun a => !a.startsWith "#")
   let implToks := (impl.splitOn " ").filter (· ≠ "")
+  let panicked := impl.startsWith "panic:"
   match cmd with
   | "svg.gen" =>
     let parsed := run (do
-      let a ← pBool; let b ← pBool; let c ← pBool; let d ← pBool
-      let _base ← pHex; let kinds ← pHex; let endOk ← pBool; let feat ← tok; let ts ← pXToks
+      let (o, kinds, endOk, feat, ts) ← pCallHead
       let mask ← pMask; let rot ← pRot; let t ← pTopo
-      pure (({ showLabels := a, showHWCID := b, showType := c, showDisplaySize := d } : SvgOpts), kinds, endOk, feat, ts, mask, rot, t)) args
+      pure (({ o, kinds, endOk, feat, ts, rot, t } : Call), mask)) args
     match parsed with
     | none => "ERR bad-record"
-    | some (o, kinds, endOk, feat, ts, mask, rot, t) =>
-      if ts.map Xml.kindOf ≠ kinds || !feat.startsWith "F:" then "ERR bad-record" else
-      let featNames := ((dropS feat 2).splitOn ",").filter (· ≠ "-")
-      let rej : Option String := (featNames.find? (·.startsWith "rej-")).map (dropS · 4)
-      let fs := Spec.SvgBase.features ts
-      -- the harness's flags must be the Spec's features of the token stream (valid bases), or one rejection class
-      let featOk := if endOk then featNames = fs.names else (featNames = [] || (rej.isSome && featNames.length = 1))
-      let rotF : Str → Svg.RotInfo := fun tk => (rot.lookup tk).getD { fmt := [63], fmt90 := [63], zero90 := false }
-      let pr := Svg.parseXML kinds endOk
-      let m := Svg.compositeNodes rotF kinds endOk o t mask
-      let ms := sOut pr ts m
-      let eq := ms = " ".intercalate implToks && featOk
-      let baseOk := Spec.Svg.baseOk kinds endOk
-      let tags := [if baseOk then "base-ok" else if rej.isSome then "base-rejected-valid" else "base-bad", s!"pr-{sPR pr}",
-                   (match mask with | none => "nomap" | some [] => "emptymap" | some _ => "map"),
-                   s!"n{(t.hwc.filter (Spec.Svg.visible mask)).length}"] ++
-                  (if baseOk then
-                    [if Spec.SvgBase.XmlDoc ts then "doc-shape-ok" else "doc-shape-bad",
-                     if Spec.SvgBase.lossFree ts && !fs.dup then "feat-none" else "feat-lossy"] ++ fs.names.map ("feat-" ++ ·)
-                   else [])
+    | some (c, mask) =>
+      let (ok, eq, h, ms, tags) := judge c mask (if panicked then none else some implToks)
+      if !ok then "ERR bad-record" else
       let b := " ".intercalate (tags.map (fun x => "B:" ++ x))
-      if impl.startsWith "panic:" then s!"NE H0:panic {ms} {b}"
-      else
-        match run pOut implToks with
-        | none => s!"NE H0:shape {ms} {b}"
-        | some io =>
-          let h := Spec.Svg.checkSVG (Svg.fmtOf rotF) o t mask kinds endOk ts rej io.nodes io.ob
-          let h := if h.isNone && !baseOk && !rej.isSome && !io.strEmpty then some "bad-base-string-not-empty" else h
-          let h := if featOk then h else some "feature-flags"
-          if eq then s!"EQ {hTag h} {b}" else s!"NE {hTag h} {ms} {b}"
+      if eq then s!"EQ {hTag h} {b}" else s!"NE {hTag h} {ms} {b}"
+  | "svg.seq" =>
+    let parsed := run (do
+      let mask ← pMask; let k ← pNat
+      let cs ← pMany (do
+        let (o, kinds, endOk, feat, ts) ← pCallHead
+        let rot ← pRot; let t ← pTopo
+        pure ({ o, kinds, endOk, feat, ts, rot, t } : Call)) k
+      pure (mask, cs)) args
+    match parsed with
+    | none => "ERR bad-record"
+    | some (mask, cs) =>
+      let outs := splitSemi implToks
+      let js := cs.zipIdx.map (fun ci => judge ci.1 mask (if panicked then none else some (outs.getD ci.2 [])))
+      if !js.all (·.1) then "ERR bad-record" else
+      let eq := !panicked && outs.length == cs.length && js.all (·.2.1)
+      let h : Option String := (js.findSome? (·.2.2.1)).orElse (fun _ => if !panicked && outs.length ≠ cs.length then some "shape" else none)
+      let ms := " ; ".intercalate (js.map (·.2.2.2.1))
+      let tags := (js.flatMap (·.2.2.2.2)).eraseDups ++ [s!"seq{cs.length}"]
+      let b := " ".intercalate (tags.map (fun x => "B:" ++ x))
+      if eq then s!"EQ {hTag h} {b}" else s!"NE {hTag h} {ms} {b}"
   | "svg.esc" =>
     match run pHex args with
     | none => "ERR bad-record"
